@@ -18,6 +18,12 @@ from pybads.utils import IterationHistory
 from .options import Options
 
 
+# Errors signalling a numerically singular GP covariance while a posterior is
+# recomputed. gpyreg raises TypeError (unary minus on a missing Cholesky
+# factor) instead of LinAlgError when all its attempts fail for tiny noise.
+GP_POSTERIOR_ERRORS = (np.linalg.LinAlgError, TypeError)
+
+
 def init_and_train_gp(
     hyp_dict: dict,
     optim_state: dict,
@@ -479,7 +485,7 @@ def local_gp_fitting(
     # Recompute posterior
     try:
         gp.update(hyp=hyp_gp)
-    except np.linalg.LinAlgError:
+    except GP_POSTERIOR_ERRORS:
         # Posterior GP update failed (due to Cholesky decomposition)
         logging.debug(
             "bads:local_gp_fitting: posterior GP update failed. Singular matrix for L Cholesky decomposition"
@@ -487,7 +493,7 @@ def local_gp_fitting(
         gp.set_priors(old_priors)
         try:
             gp.set_hyperparameters(old_hyp_gp)
-        except np.linalg.LinAlgError:
+        except GP_POSTERIOR_ERRORS:
             # Even the previous hyperparameters fail on the new training
             # set: keep the previous GP (training set and posterior)
             gp.X, gp.y, gp.s2 = prev_X, prev_y, prev_s2
@@ -1197,7 +1203,7 @@ def add_and_update_gp(
 
     try:
         gp.update(compute_posterior=True)
-    except np.linalg.LinAlgError:
+    except GP_POSTERIOR_ERRORS:
         # Singular covariance with the new point: keep the previous posterior
         # (the point is in the log and enters at the next local refit)
         gp.X, gp.y, gp.s2 = prev_X, prev_y, prev_s2
